@@ -209,10 +209,12 @@ fn scenario(seed: u64, variant: &str, trigger: &str, rep: &Report) -> Result<(),
     }
     // straddlers: a transaction in progress across the reload, one per pool
     let release = Arc::new(AtomicU64::new(0));
+    let in_txn = Arc::new(AtomicU64::new(0));
     let mut straddlers = vec![];
     for pool in ["pa", "pb"] {
         let a = addr.clone();
         let rel = release.clone();
+        let in_txn = in_txn.clone();
         let pool = pool.to_string();
         straddlers.push(std::thread::spawn(move || -> Result<(), String> {
             let id = format!("s{}", pool);
@@ -223,6 +225,7 @@ fn scenario(seed: u64, variant: &str, trigger: &str, rep: &Report) -> Result<(),
             }
             let r = c.query(&format!("SELECT 1 {}", tag(&id, &format!("{}.q2", id), "rows=1")), 5000).map_err(|e| format!("{:?}", e.1))?;
             let sid0 = row_idents(&r).first().map(|x| (x.0.clone(), x.1));
+            in_txn.fetch_add(1, Ordering::SeqCst);
             while rel.load(Ordering::SeqCst) == 0 {
                 sleep_ms(2);
             }
@@ -265,6 +268,16 @@ fn scenario(seed: u64, variant: &str, trigger: &str, rep: &Report) -> Result<(),
         None
     };
     sleep_ms(150);
+    // (on a busy machine the straddlers may need longer than that to get going: the reload must
+    // find their transactions open, otherwise their BEGIN meets the new configuration)
+    let t_wait = now_ns() + 10_000_000_000;
+    while in_txn.load(Ordering::SeqCst) < 2 && now_ns() < t_wait {
+        sleep_ms(5);
+    }
+    if in_txn.load(Ordering::SeqCst) < 2 {
+        release.store(1, Ordering::SeqCst);
+        return Err("the straddling transactions did not start within 10 s".into());
+    }
     let mut adm = cell.pg().admin().map_err(|e| format!("admin: {}", e))?;
     let norm = |rows: Vec<BTreeMap<String, String>>| -> Vec<String> {
         let mut v: Vec<String> = rows
